@@ -490,6 +490,12 @@ func (ex *Exec) selField(env *Env, b Val, sel string) Val {
 				nl := *loc
 				nl.Off += f.Off
 				nl.T = f.T
+				if loc.Alt != nil {
+					al := *loc.Alt
+					al.Off += f.Off
+					al.T = f.T
+					nl.Alt = &al
+				}
 				v := env.st.load(&nl)
 				closed := true
 				for _, l := range v.L {
@@ -508,12 +514,10 @@ func (ex *Exec) selField(env *Env, b Val, sel string) Val {
 			for i := 0; i < st.NumFields(); i++ {
 				if st.Field(i).Embedded() {
 					f := lo.Fields[i]
-					nl := *loc
-					nl.Off += f.Off
-					nl.T = f.T
-					inner := Val{T: types.NewPointer(f.T), Loc: &nl}
+					nl := offLoc(loc, f.Off, f.T)
+					inner := Val{T: types.NewPointer(f.T), Loc: nl}
 					if _, isPtr := f.T.Underlying().(*types.Pointer); isPtr {
-						inner = env.st.load(&nl)
+						inner = env.st.load(nl)
 					}
 					if r, ok := ex.trySel(env, inner, sel); ok {
 						return r
